@@ -3,7 +3,7 @@
    The models return Ok | Err | Panic with every Go index / slice expression guarded; "never crashes" is
    `<> Panic`, for EVERY byte list.  Termination is by construction (structural recursion). *)
 From Coq Require Import NArith ZArith List Bool.
-Require Import Board Move GameOver PtnMove Playtak Tps TotalFacts.
+Require Import Board Move GameOver PtnMove Playtak Tps TotalFacts PtnFile PtnFileTotalThm Tei TeiTotal.
 
 Theorem C13_parse_move_total : forall s : list N, PtnMove.parse_move s <> PtnMove.Panic.
 Proof. exact parse_move_total. Qed.
@@ -18,9 +18,28 @@ Theorem C13_parse_tps_total : forall (basis : list N) (s : list N), Tps.parse_tp
 Proof. exact parse_tps_total. Qed.
 Print Assumptions C13_parse_tps_total.
 
-(* C13_partial: the PTN-file entry point (ParsePTN + InitialPosition + replay) and the TEI command stream are
-   modelled in PtnFile.v / Tei.v with the same Ok|Err|Panic discipline and compared class-for-class with the
-   implementation on every generated byte string; their totality theorems (ptn_file_total, tei_run_total)
-   belong to the C12 / C17 developments and are listed here once proved there.  The chat-line parsers and
-   Weights.UnmarshalJSON are thin wrappers around regexp / encoding/json, which are trusted to be total:
-   these two entry points are decided by the crash/hang oracle only. *)
+(* PTN files: ParsePTN of ANY byte list never panics, and when it succeeds, deriving the initial position, replaying
+   the whole game through the Iterator and PositionAtMove for every (n, colour) never panic either. *)
+Theorem C13_ptn_file_total : forall (basis : list N) (s : list N),
+  match PtnFile.parse_ptn s with
+  | Move.Panic => False
+  | Move.Err => True
+  | Move.Ok g =>
+    PtnFile.initial_position basis g <> Move.Panic /\
+    (forall p0, PtnFile.initial_position basis g = Move.Ok p0 -> PtnFile.replay_all basis g p0 <> Move.Panic) /\
+    (forall n c, PtnFile.position_at_move basis g n c <> Move.Panic)
+  end.
+Proof. exact PtnFileTotalThm.ptn_file_total. Qed.
+Print Assumptions C13_ptn_file_total.
+
+(* The TEI command stream: Engine.Run of a new engine on ANY byte stream never crashes, whatever the searcher
+   oracle answers (any searcher state type, constructor and search function). *)
+Theorem C13_tei_run_total : forall (basis : list N) (SS : Type) (mk_searcher : Z -> SS)
+    (search : SS -> option Z -> position -> SS * (list rmove * Z * Z * Z)) (s : list N),
+  snd (fst (Tei.run_bytes basis SS mk_searcher search s (Tei.engine0 SS))) <> Tei.Crashed.
+Proof. exact TeiTotal.tei_run_bytes_total. Qed.
+Print Assumptions C13_tei_run_total.
+
+(* Not theorems: the chat-line parsers and Weights.UnmarshalJSON are thin wrappers around regexp / encoding/json,
+   which are trusted to be total; these two entry points are decided by the crash/hang oracle only.  "Bounded time"
+   is by construction for the Gallina models (structural recursion); for the Go code it is checked by a deadline. *)
